@@ -73,6 +73,19 @@ static unsigned prog_max_xreg(const vj::Value& prog) {
   return unsigned(mx);
 }
 
+static unsigned prog_max_qreg(const vj::Value& prog) {
+  long long mx = 0;
+  for (auto& I : prog.arr) {
+    const std::string& op = I[0].s();
+    auto upd = [&](size_t k) { if (I[k].i() > mx) mx = I[k].i(); };
+    if (op == "qset" || op == "qsx" || op == "qset16" || op == "qset8") upd(1);
+    else if (op == "qhi" || op == "qlo" || op == "qop0") upd(2);
+    else if (op == "qmov" || op == "qxor" || op == "qmov32" || op == "qinitall") { upd(1); upd(2); }
+    else if (op == "qfold") { upd(2); upd(3); }
+  }
+  return unsigned(mx);
+}
+
 struct Prog {
   long long id = 0;
   const vj::Value* rec = nullptr;
@@ -96,6 +109,10 @@ static unsigned prog_max_reg(const vj::Value& prog) {
     else if (op == "label" || op == "jmp" || op == "vmov" || op == "vxor" || op == "vor" || op == "vand" || op == "vinitall") {}
     else if (op == "vset") upd(2);
     else if (op == "vget" || op == "vfold") upd(1);
+    else if (op == "qset") { upd(2); upd(3); }
+    else if (op == "qhi" || op == "qlo" || op == "qfold") upd(1);
+    else if (op == "qsx" || op == "qset16" || op == "qset8") upd(2);
+    else if (op == "qmov" || op == "qxor" || op == "qmov32" || op == "qop0" || op == "qinitall") {}
     else for (size_t k = 1; k < I.size(); k++) upd(k);
   }
   return unsigned(mx);
@@ -123,6 +140,10 @@ static FuncNode* build_x86(x86::Compiler& cc, const Prog& p) {
   unsigned nx = prog_max_xreg(prog);
   std::vector<x86::Vec> xv(nx + 1);
   for (unsigned i = 1; i <= nx; i++) xv[i] = cc.new_xmm("x%u", i);
+  unsigned nq = prog_max_qreg(prog);
+  std::vector<x86::Gp> qv(nq + 1);
+  for (unsigned i = 1; i <= nq; i++) qv[i] = cc.new_gp64("q%u", i);
+  auto QR = [&](const vj::Value& I, size_t k) -> x86::Gp& { return qv[size_t(I[k].i())]; };
   x86::Gp outp = cc.new_gp_ptr("outp");
   x86::Mem stk = cc.new_stack(NS * 4, 4, "stk");
   std::map<long long, Label> labels;
@@ -230,6 +251,32 @@ static FuncNode* build_x86(x86::Compiler& cc, const Prog& p) {
     else if (op == "vfold") {
       x86::Gp t = cc.new_gp32("vf");
       for (long long r = I[2].i(); r <= I[3].i(); r++) { cc.movd(t, xv[size_t(r)]); cc.imul(R(1), R(1), 31); cc.add(R(1), t); mask(R(1)); }
+    }
+    else if (op == "qinitall") {
+      for (long long r = I[1].i(); r <= I[2].i(); r++) cc.mov(qv[size_t(r)], uint64_t((uint64_t(init_const(uint32_t(2000 + r))) << 32) | init_const(uint32_t(3000 + r))));
+    }
+    else if (op == "qset") { x86::Gp t = cc.new_gp64("qs"); cc.mov(QR(I, 1).r32(), R(2)); cc.shl(QR(I, 1), 32); cc.mov(t.r32(), R(3)); cc.or_(QR(I, 1), t); }
+    else if (op == "qhi") { x86::Gp t = cc.new_gp64("qh"); cc.mov(t, QR(I, 2)); cc.shr(t, 32); cc.mov(R(1), t.r32()); }
+    else if (op == "qlo") cc.mov(R(1), QR(I, 2).r32());
+    else if (op == "qmov") cc.mov(QR(I, 1), QR(I, 2));
+    else if (op == "qxor") cc.xor_(QR(I, 1), QR(I, 2));
+    else if (op == "qmov32") cc.mov(QR(I, 1).r32(), QR(I, 2).r32());
+    else if (op == "qsx") cc.movsxd(QR(I, 1), R(2));
+    else if (op == "qop0") {
+      const std::string& o = I[1].s();
+      x86::Gp q32 = QR(I, 2).r32();
+      if (o == "add") cc.add(q32, 0); else if (o == "sub") cc.sub(q32, 0); else if (o == "xor") cc.xor_(q32, 0); else if (o == "or") cc.or_(q32, 0);
+      else if (o == "shl") cc.shl(q32, 0); else if (o == "shr") cc.shr(q32, 0); else if (o == "sar") cc.sar(q32, 0); else if (o == "rol") cc.rol(q32, 0); else cc.ror(q32, 0);
+    }
+    else if (op == "qset16") cc.mov(QR(I, 1).r16(), R(2).r16());
+    else if (op == "qset8") cc.mov(QR(I, 1).r8(), R(2).r8());
+    else if (op == "qfold") {
+      x86::Gp t = cc.new_gp64("qf");
+      for (long long r = I[2].i(); r <= I[3].i(); r++) {
+        cc.mov(t, qv[size_t(r)]); cc.shr(t, 32);
+        cc.imul(R(1), R(1), 31); cc.add(R(1), t.r32()); mask(R(1));
+        cc.imul(R(1), R(1), 31); cc.add(R(1), qv[size_t(r)].r32()); mask(R(1));
+      }
     }
     else if (op == "ret") cc.ret(R(1));
     else { fprintf(stderr, "unknown op %s\n", op.c_str()); exit(3); }
@@ -877,6 +924,10 @@ static FuncNode* build_a64(a64::Compiler& cc, const Prog& p) {
   unsigned nx = prog_max_xreg(prog);
   std::vector<a64::Vec> xv(nx + 1);
   for (unsigned i = 1; i <= nx; i++) xv[i] = cc.new_vec_q("x%u", i);
+  unsigned nq = prog_max_qreg(prog);
+  std::vector<a64::Gp> qv(nq + 1);
+  for (unsigned i = 1; i <= nq; i++) qv[i] = cc.new_gp64("q%u", i);
+  auto QR = [&](const vj::Value& I, size_t k) -> a64::Gp& { return qv[size_t(I[k].i())]; };
   a64::Gp outp = cc.new_gp_ptr("outp");
   a64::Mem stk = cc.new_stack(NS * 4, 4, "stk");
   std::map<long long, Label> labels;
@@ -1001,6 +1052,33 @@ static FuncNode* build_a64(a64::Compiler& cc, const Prog& p) {
       a64::Gp k31 = cc.new_gp32("k31");
       cc.mov(k31, 31);
       for (long long r = I[2].i(); r <= I[3].i(); r++) { cc.fmov(t, xv[size_t(r)].s()); cc.mul(R(1), R(1), k31); cc.add(R(1), R(1), t); mask(R(1)); }
+    }
+    else if (op == "qinitall") {
+      for (long long r = I[1].i(); r <= I[2].i(); r++) cc.mov(qv[size_t(r)], uint64_t((uint64_t(init_const(uint32_t(2000 + r))) << 32) | init_const(uint32_t(3000 + r))));
+    }
+    else if (op == "qset") { a64::Gp t = cc.new_gp64("qs"); cc.mov(QR(I, 1).w(), R(2)); cc.lsl(QR(I, 1), QR(I, 1), 32); cc.mov(t.w(), R(3)); cc.orr(QR(I, 1), QR(I, 1), t); }
+    else if (op == "qhi") { a64::Gp t = cc.new_gp64("qh"); cc.lsr(t, QR(I, 2), 32); cc.mov(R(1), t.w()); }
+    else if (op == "qlo") cc.mov(R(1), QR(I, 2).w());
+    else if (op == "qmov") cc.mov(QR(I, 1), QR(I, 2));
+    else if (op == "qxor") cc.eor(QR(I, 1), QR(I, 1), QR(I, 2));
+    else if (op == "qmov32") cc.mov(QR(I, 1).w(), QR(I, 2).w());
+    else if (op == "qsx") cc.sxtw(QR(I, 1), R(2));
+    else if (op == "qop0") {
+      const std::string& o = I[1].s();
+      a64::Gp w = QR(I, 2).w();
+      if (o == "add" || o == "or" || o == "xor") cc.add(w, w, 0); else if (o == "sub") cc.sub(w, w, 0); else if (o == "shl" || o == "rol") cc.lsl(w, w, 0); else cc.lsr(w, w, 0);
+    }
+    else if (op == "qset16") cc.bfi(QR(I, 1), R(2).x(), 0, 16);
+    else if (op == "qset8") cc.bfi(QR(I, 1), R(2).x(), 0, 8);
+    else if (op == "qfold") {
+      a64::Gp t = cc.new_gp64("qf");
+      a64::Gp k31 = cc.new_gp32("k31");
+      cc.mov(k31, 31);
+      for (long long r = I[2].i(); r <= I[3].i(); r++) {
+        cc.lsr(t, qv[size_t(r)], 32);
+        cc.mul(R(1), R(1), k31); cc.add(R(1), R(1), t.w()); mask(R(1));
+        cc.mul(R(1), R(1), k31); cc.add(R(1), R(1), qv[size_t(r)].w()); mask(R(1));
+      }
     }
     else if (op == "ret") cc.ret(R(1));
     else { fprintf(stderr, "unknown op %s\n", op.c_str()); exit(3); }
